@@ -50,6 +50,8 @@ def build_inputs(ctx):
         inputs.append(("planted", g1.planted(rng, n=rng.randint(10, ctx.pick(160, 400)))))
     for _ in range(ctx.pick(500, 8000)):
         inputs.append(("dense", g1.small_dense(rng)))
+    for _ in range(ctx.pick(800, 10000)):
+        inputs.append(("tight", g1.tight(rng)))
     # nested-only structures with many loops (multi-branch junctions, bulges, internal loops)
     for _ in range(ctx.pick(500, 8000)):
         inputs.append(("nested", nested(rng, rng.randint(8, ctx.pick(120, 300)))))
